@@ -81,14 +81,22 @@ pub fn expr_kind(e: &Expr) -> &'static str {
     }
 }
 
+fn strip_groups(mut e: &Expr) -> &Expr {
+    while let Expr::Group(g) = e {
+        e = &g.expr;
+    }
+    e
+}
+
 pub fn expr(e: &Expr) -> Value {
     match e {
         Expr::Lit(l) => json!({"t": "lit", "info": info(e), "lit": lit(&l.lit)}),
         Expr::Group(g) => json!({"t": "group", "info": info(e), "e": expr(&g.expr)}),
         // `- <int or float literal>`: the form syn gives `name = -1` when another item follows
+        // (the operand may sit in invisible groups: `-$n` with `$n` a macro_rules! fragment)
         Expr::Unary(syn::ExprUnary { op: syn::UnOp::Neg(_), expr: inner, attrs, .. })
             if attrs.is_empty()
-                && matches!(**inner, Expr::Lit(syn::ExprLit { lit: Lit::Int(_) | Lit::Float(_), .. })) =>
+                && matches!(strip_groups(inner), Expr::Lit(syn::ExprLit { lit: Lit::Int(_) | Lit::Float(_), .. })) =>
         {
             match syn::parse2::<Lit>(e.to_token_stream()) {
                 Ok(l) => json!({"t": "neg", "info": info(e), "lit": lit(&l)}),
